@@ -172,9 +172,9 @@ def rule_none(ctx: Ctx):
         for p in ctx.paths(fn, exc_edges="none"):
             if p.kind != "return":
                 continue
-            init = any(isinstance(b.term, ast.Compare) and b.x["taken"] and
-                       any(isinstance(c, ast.Constant) and c.value == "__initial__" for c in [b.term.left] + b.term.comparators)
-                       for b in p.of("branch"))
+            from ..kernel import initial_test
+
+            init = any(initial_test(b.term) is not None and (b.x["taken"] is initial_test(b.term)) for b in p.of("branch"))
             if init:
                 continue
             n += 1
